@@ -225,6 +225,17 @@ def load_known(pid):
 
 
 # ---------------------------------------------------------------- the check
+def _involves_implementation(exc):
+    src = os.path.join(os.path.realpath(REPO), "src")
+    tb = exc.__traceback__
+    while tb is not None:
+        fn = os.path.realpath(tb.tb_frame.f_code.co_filename)
+        if fn.startswith(src) or "/pylife/" in fn:
+            return True
+        tb = tb.tb_next
+    return False
+
+
 class Failure:
     def __init__(self, kind, case, detail, klass=None):
         self.kind = kind          # 'oracle' | 'correspondence' | 'proof'
@@ -309,9 +320,22 @@ class Prop:
         return case
 
     def _oracle_safe(self, case):
+        """An exception that comes out of the implementation (a pylife frame is on the traceback) on an input
+        of the property's quantifier is a failure of the property on that input, not an infrastructure
+        problem; an exception that never touched pylife is a bug of the harness and is re-raised (exit 2)."""
         try:
             return self.oracle(case)
-        except Exception as e:  # an exception inside the oracle is an infrastructure problem
+        except Exception as e:
+            if _involves_implementation(e):
+                return (f"the implementation raises {type(e).__name__}: {str(e)[:300]}", "implementation-raises")
+            raise
+
+    def _impl_safe(self, case):
+        try:
+            return self.impl_lines(case)
+        except Exception as e:
+            if _involves_implementation(e):
+                return [f"EXC {type(e).__name__}: {str(e)[:200]}"]
             raise
 
 
@@ -401,7 +425,7 @@ def run_check(prop, tier, seed, replay=None):
             answers = None
             failures.append(Failure("correspondence", None, f"driver error: {e}"))
         if answers is not None:
-            impl_all = prop.impl_all(cases) if hasattr(prop, "impl_all") else pmap(prop, "impl_lines", cases)
+            impl_all = prop.impl_all(cases) if hasattr(prop, "impl_all") else pmap(prop, "_impl_safe", cases)
             for c, (a, b), impl_out in zip(cases, spans, impl_all):
                 mo = answers[a:b]
                 if not mo and not impl_out:
